@@ -50,7 +50,8 @@ PAIR_POSITIONS = ["enum_value", "property_name", "param_name_query", "string_def
                   "operation_summary"]
 
 # positions whose text must come back as an exact string constant somewhere in the emitted package
-MEANING = {"enum_value", "property_name", "param_name_query", "param_name_header", "string_default", "discriminator_value"}
+MEANING = {"enum_value", "property_name", "param_name_query", "param_name_header", "string_default", "discriminator_value",
+           "request_media_type"}   # the Content-Type of a raw body is sent from a literal
 
 
 def base_doc() -> dict:
@@ -123,6 +124,18 @@ def place(doc: dict, position: str, text: str) -> dict:
         m[text] = m.pop("dog")
     elif position == "server_url":
         d["servers"][0]["url"] = "https://api.test/" + text
+    elif position == "request_body_description":
+        d["paths"]["/op2/pets"]["post"]["requestBody"]["description"] = text
+    elif position == "info_version":
+        d["info"]["version"] = text
+    elif position == "operation_id":
+        get["operationId"] = text
+    elif position == "request_media_type":
+        c = d["paths"]["/op2/pets"]["post"]["requestBody"]["content"]
+        c["application/x-" + text] = c.pop("application/json")
+    elif position == "response_media_type":
+        c = get["responses"]["200"]["content"]
+        c["application/json; note=" + text] = c.pop("application/json")
     else:
         raise KeyError(position)
     return d
@@ -131,7 +144,8 @@ def place(doc: dict, position: str, text: str) -> dict:
 POSITIONS = ["info_title", "info_description", "schema_description_object", "schema_description_enum", "schema_description_alias",
              "schema_description_map", "schema_description_union", "property_description", "property_name", "enum_value", "string_default",
              "param_name_query", "param_name_header", "param_description", "operation_summary", "operation_description", "tag",
-             "response_description", "error_response_description", "discriminator_value", "server_url"]
+             "response_description", "error_response_description", "discriminator_value", "server_url",
+             "request_body_description", "info_version", "operation_id", "request_media_type", "response_media_type"]
 
 
 def skeleton(tree: ast.AST) -> str:
@@ -227,7 +241,8 @@ def run_cell(ctx: Ctx, position: str, pname: str, text: str, baseline: dict) -> 
     if position in MEANING:
         rec.count("meaning_literals_checked")
         allc = set().union(*consts.values()) if consts else set()
-        if text not in allc and not errors:
+        want = {"request_media_type": "application/x-" + text}.get(position, text)   # the literal as the wire needs it
+        if want not in allc and not errors:
             rec.violation(f"literal:{position}:not_the_original_string", feats, case,
                           f"{text!r} does not appear as a string constant in the emitted package")
     if len(rec.samples) < 2 and nontriv:
